@@ -137,7 +137,7 @@ func RunProperty(cfg Config) int {
 			if o == nil {
 				continue
 			}
-			ok := o.Status == "ok" && eqStrs(o.Reached, w.Reached) && eqStrs(o.Asserts, w.Asserts) && eqStrs(o.Observe, w.Observe) && len(o.Missing) == 0
+			ok := o.Status == "ok" && eqStrs(o.Reached, w.Reached) && eqStrs(o.Asserts, w.Asserts) && eqStrs(o.Observe, w.Observe)
 			if ok {
 				validated++
 			} else {
